@@ -103,6 +103,7 @@ type World struct {
 	Actions     []string       // rendered actions (when KeepLog)
 	Stats       map[string]int // class counters
 	FaultBudget int
+	KnownHits   map[string]int
 	TimedRes    *Timed
 	detRand     *detReader
 }
@@ -110,8 +111,19 @@ type World struct {
 // Stat increments a class counter.
 func (w *World) Stat(k string) { w.Stats[k]++ }
 
+// KnownKeys ("<prop>/<key>") are open known findings: a violation with such a key is counted
+// and the run goes on, so that the search is not cut short behind a shallow known defect.
+var KnownKeys = map[string]bool{}
+
 // Fail records a violation.
 func (w *World) Fail(prop, msg, key string) {
+	if KnownKeys[prop+"/"+key] {
+		if w.KnownHits == nil {
+			w.KnownHits = map[string]int{}
+		}
+		w.KnownHits[prop+"/"+key]++
+		return
+	}
 	w.Viols = append(w.Viols, Violation{Prop: prop, Msg: msg, Key: key, Step: w.Step})
 }
 
